@@ -11,7 +11,7 @@ fn main() {
     let (a, w) = (DVec3::from_array(c.eff_anchor()), DVec3::from_array(c.eff_width()));
     let grid = hooks::Grid::new(a, w, c.periodic, c.dimensionality());
     let gens = hooks::make_generators(&c.gens_v(), c.dimensionality());
-    let seq = hooks::nn_sequence(&c.gens_v(), i, c.dimensionality(), c.periodic, w, 200);
+    let seq = hooks::nn_sequence(&c.gens_v(), i, c.dimensionality(), c.periodic, w, usize::MAX);
     let loc = gens[i].loc();
     let mut cell = hooks::cell_init(loc, i, &grid);
     for (step, (j, s)) in seq[1..].iter().enumerate() {
@@ -31,6 +31,13 @@ fn main() {
         for (k, (f, e)) in &bad {
             let v = &cell.vertices[*k];
             println!("    vertex {k} dual {:?} loc {:?}: filter {f} exact {e}; n.(v-p) = {:e}", v.dual, v.loc, hs.plane.n.dot(v.loc - hs.plane.p));
+            println!("      a = {:?} iloc {:?}", loc, grid.iloc(loc));
+            for &pi in &v.dual {
+                let p = &cell.clipping_planes[pi];
+                let r = p.right_loc(i, &gens);
+                println!("      plane {pi}: right {:?} shift {:?} right_loc {:?} iloc {:?}", p.right_idx, p.shift, r, grid.iloc(r));
+            }
+            println!("      v = {:?} iloc {:?}", ngb, grid.iloc(ngb));
         }
         let r = std::panic::catch_unwind(std::panic::AssertUnwindSafe(|| hooks::cell_clip(&mut cell, hs.clone(), &gens, &grid)));
         if r.is_err() {
